@@ -330,8 +330,37 @@ struct SharedSim : Sim {
                 }
         }
 
+        // The race model executes the binding store and the jmp through the slot as single steps, which is what the hardware does for an
+        // 8-byte access that does not cross a cache line. A slot that lies across a 64-byte line is written in two bus cycles: a racing
+        // first call can load half of the old and half of the new pointer. Checked over every slot of the linked archive on each run
+        // (the layout is a property of the library's section alignment, not of the schedule).
+        void check_slot_atomicity(Env &e, RunResult &r)
+        {
+                static std::vector<std::pair<std::string, uintptr_t>> slots;
+                static bool done = false;
+                if (!done) {
+                        done = true;
+                        for (auto &n : symbols_matching("", "_dispatched"))
+                                slots.emplace_back(n, (uintptr_t) libsym(n.c_str()));
+                }
+                size_t unaligned = 0;
+                for (auto &s : slots) {
+                        if (s.second % 8)
+                                unaligned++;
+                        if ((s.second % 64) + 8 > 64)
+                                e.violation("C18", "slot-across-cache-line", "C18/slot-across-cache-line/" + s.first,
+                                            strfmt("the binding slot %s lies at 0x%lx, across a 64-byte line: the binding store and the jmp through it are not single "
+                                                   "atomic accesses, a racing first call can see a torn pointer",
+                                                   s.first.c_str(), (unsigned long) s.second));
+                }
+                r.cov.hit("probe_binding_slots_checked_for_line_crossing", slots.size());
+                if (unaligned)
+                        r.cov.hit("probe_binding_slots_not_8_byte_aligned", unaligned);
+        }
+
         void mode_race(const Plan &p, Env &e, RunResult &r)
         {
+                check_slot_atomicity(e, r);
                 int n = (int) std::max<int64_t>(2, std::min<int64_t>(p.get("tasks"), 8));
                 // simulated CPU (same for all tasks)
                 SimCPU cpu;
